@@ -93,7 +93,7 @@ func (e *Env) runListCase(st emitted, idx int, seed int64) ([]*Obs, error) {
 	for id, it := range view.View {
 		if it.Kind == "epic" {
 			variants = append(variants, variant{"epic", []string{"--epic", ids.real(id)}, id})
-			break
+			variants = append(variants, variant{"epic_ready", []string{"--epic", ids.real(id), "--ready"}, id})
 		}
 	}
 	for _, v := range variants {
@@ -121,6 +121,7 @@ func (e *Env) runListCase(st emitted, idx int, seed int64) ([]*Obs, error) {
 		rows := []map[string]any{}
 		summary := map[string]any{"ready": 0, "inprogress": 0, "blocked": 0, "error": 0, "done": 0, "canceled": 0}
 		sentence := ""
+		summaryPrinted := false
 		valid := utf8.ValidString(text)
 		for _, line := range strings.Split(text, "\n") {
 			if strings.TrimSpace(line) == "" {
@@ -141,6 +142,7 @@ func (e *Env) runListCase(st emitted, idx int, seed int64) ([]*Obs, error) {
 					n, _ := strconv.Atoi(m[1])
 					summary[strings.ReplaceAll(m[2], " ", "")] = n
 				}
+				summaryPrinted = true
 				continue
 			}
 			if strings.HasPrefix(line, "No ") {
@@ -148,14 +150,14 @@ func (e *Env) runListCase(st emitted, idx int, seed int64) ([]*Obs, error) {
 			}
 		}
 		hl := map[string]any{"flag": v.flag, "epic": v.epic, "width": width, "quiet": quiet, "rows": rows,
-			"summary": summary, "sentence": sentence, "utf8": valid, "view": rv, "exit": res.Exit}
+			"summary": summary, "summary_printed": summaryPrinted, "sentence": sentence, "utf8": valid, "view": rv, "exit": res.Exit}
 		o := &Obs{Tag: "e8l", Cmd: Cmd{"name": "humanlist", "mode": "json", "flag": v.flag, "width": width, "quiet": quiet},
 			Exit:  res.Exit,
 			Reply: Reply{IDs: []string{}, Edges: [][2]string{}, Pruned: []string{}}, Out: outFacts{JSON: false, Values: 0},
 			Pre: rv, Post: rv, LogPre: []map[string]any{}, LogPost: []map[string]any{}, Gone: []string{},
 			Readable: true, ListShow: true, Facts: map[string]any{"flag": v.flag, "raw": string(res.Stdout)},
 			Only: []string{"C19_all_once", "C19_active_once", "C19_ready_exact", "C19_known_rows", "C19_tree", "C19_summary",
-				"C19_empty", "C19_fits", "C19_idcol", "C19_utf8"},
+				"C19_empty", "C19_fits", "C19_idcol", "C19_utf8", "C19_summary_noready", "C19_ready_rows"},
 			Procs: []procRec{}, Readers: []readerRec{}, After: []afterRec{}, HL: hl}
 		o.stdout = string(res.Stdout)
 		out = append(out, o)
